@@ -3,7 +3,7 @@
 
 fn rule_text(prop: &str) -> String {
     if prop == "C13" {
-        "C13: (a) HTTP/2 requests = valid pseudo-headers + 0..8 regular headers from a name/value pool (duplicates, obs-text, leading/trailing OWS, empty values) + with prob. 0.7 spoofing headers (X-Forwarded-For x0..2, Forwarded, X-Real-IP, X-Forwarded-Proto/Port, X-Request-Id x0..2, the listener's correlation header name in 3 case variants, Connection-nominated names), cookies incl. the sticky cookie, optional DATA + trailers (incl. the four spoof names); (b) the same header lists through an HTTP/1.1 frontend (real kawa parser) toward H1 and H2 backends; (c) responses with 0..6 headers incl. Connection / Set-Cookie / the correlation name; (d) per-frontend response edits (0..4 Append / SetIfAbsent / Set / empty-value delete over 8 names in 3 case variants) through the real apply_response_header_edits; contexts: peer v4/v6/none, public v4/v6, http/https, closing, elide/send X-Real-IP, 3 sticky names, 3 correlation header names. non-trivial = the request reached the editor; distinct = distinct op sequence".into()
+        "C13: (a) HTTP/2 requests = valid pseudo-headers + 0..8 regular headers from a name/value pool (duplicates, obs-text, leading/trailing OWS, empty values) + with prob. 0.7 spoofing headers (X-Forwarded-For x0..2, Forwarded, X-Real-IP, X-Forwarded-Proto/Port, X-Request-Id x0..2, the listener's correlation header name in 3 case variants, Connection-nominated names), cookies incl. the sticky cookie, optional DATA + trailers (incl. the four spoof names); (b) the same header lists through an HTTP/1.1 frontend (real kawa parser) toward H1 and H2 backends; (c) responses with 0..6 headers incl. Connection / Set-Cookie / the correlation name; (d) per-frontend response edits (0..4 Append / SetIfAbsent / Set / empty-value delete over 8 names in 3 case variants) through the real apply_response_header_edits; (e) HSTS configuration histories on the real Router (add_http_front_with_hsts_origin driven like https.rs does: frontends with no / enabled / explicitly disabled hsts block, with or without other policy, in pre / tree / post position, clusterless ones; listener default absent / disabled / enabled at add time; 3..9 further adds, listener patches enable / change / disable, removals, re-adds; every live frontend looked up and its response edits applied to a backend response with 0..2 STS headers); contexts: peer v4/v6/none, public v4/v6, http/https, closing, elide/send X-Real-IP, 3 sticky names, 3 correlation header names. non-trivial = the request reached the editor; distinct = distinct op sequence".into()
     } else {
         "C03: (a) HTTP/2 header lists: valid requests (4 methods + custom tokens, origin/asterisk paths, authority with/without port, 0..6 regular headers, cookies, Content-Length consistent with END_STREAM) and with prob. 0.6 one to three mutations out of 40 shapes (uppercase / non-token name bytes, CR LF NUL CTL DEL in values and cookie crumbs, pseudo-header order / duplicate / missing / unknown / empty / HTAB, method and scheme and path forms incl. SP and '#', connection-specific names, te values, Content-Length sign/space/empty/leading zero/duplicate equal/duplicate differing/overflow, literal host equal/port/mismatch/duplicate, END_STREAM with length, tiny field/byte budgets), followed by DATA frames and optional trailers; (b) HTTP/1.1 byte strings: 1..3 pipelined valid requests (CL / chunked with trailers / no body, origin / absolute / asterisk targets) and with prob. 0.65 a published smuggling shape (CL.TE, TE.CL, TE.TE obfuscations, duplicate CL, signed CL, bare LF, bare CR, obs-fold, NUL/CTL, space before colon, chunk-size tricks, no-length pipeline) or 1..3 random byte edits, cut at random segment boundaries; (c) cross-check of the harness's strict reader against the Lean one on the same strings. non-trivial = the real validator / parser ran; distinct = distinct op sequence".into()
     }
@@ -859,6 +859,86 @@ fn gen_respedits_case(rng: &mut Rng) -> Vec<String> {
     vec!["new".into(), format!("respedits {} {}", if edits.is_empty() { "_".into() } else { edits.join(",") }, hl(&hs))]
 }
 
+fn gen_hsts_cfg(rng: &mut Rng, enabled: Option<bool>) -> String {
+    let e = match enabled {
+        Some(true) => "t",
+        Some(false) => "f",
+        None => "n",
+    };
+    let m = if enabled == Some(true) || rng.chance(1, 2) { rng.pick(&["31536000", "63072000", "0", "300"]).to_string() } else { "n".to_string() };
+    format!("{e},{m},{},{},{}", rng.below(2), rng.below(2), rng.chance(1, 4) as u8)
+}
+
+/// a configuration history of one HTTPS listener: frontends of every shape added, the listener's
+/// HSTS default patched (enable / change / disable), frontends removed and re-added, every frontend looked up
+fn gen_hsts_case(rng: &mut Rng) -> Vec<String> {
+    let mut ops = vec!["new".to_string()];
+    let def = match rng.below(4) {
+        0 => "~".to_string(),
+        1 => gen_hsts_cfg(rng, Some(false)),
+        _ => gen_hsts_cfg(rng, Some(true)),
+    };
+    ops.push(format!("hdef {def}"));
+    let mut live: Vec<u64> = vec![];
+    let mut next = 0u64;
+    let lookups = |rng: &mut Rng, live: &[u64], ops: &mut Vec<String>| {
+        for id in live {
+            let mut resp: Vec<Hdr> = vec![h("Server", "b")];
+            for _ in 0..rng.below(3) {
+                if rng.chance(1, 3) {
+                    resp.push((case_variant(rng, "Strict-Transport-Security", true), b"max-age=1".to_vec()));
+                }
+            }
+            ops.push(format!("hlook {id} {}", hl(&resp)));
+        }
+    };
+    for _ in 0..rng.range(3, 9) {
+        let r = rng.below(100);
+        if r < 45 || live.is_empty() {
+            let id = next;
+            next += 1;
+            let block = match rng.below(4) {
+                0 | 1 => "~".to_string(),
+                2 => gen_hsts_cfg(rng, Some(false)),
+                _ => gen_hsts_cfg(rng, Some(true)),
+            };
+            let policy = rng.chance(1, 4);
+            let other = if rng.chance(1, 4) { format!("{}:{}:a", hex(b"X-Op"), hex(format!("v{id}").as_bytes())) } else { "_".to_string() };
+            ops.push(format!("hadd {id} {} {} {other} {block}", rng.chance(1, 6) as u8, policy as u8));
+            live.push(id);
+        } else if r < 80 {
+            let en = rng.chance(2, 3);
+            let c = gen_hsts_cfg(rng, Some(en));
+            ops.push(format!("hpatch {c}"));
+            if rng.chance(1, 2) {
+                lookups(rng, &live, &mut ops);
+            }
+        } else if r < 85 {
+            ops.push("hunset".into());
+        } else if r < 95 {
+            let i = rng.below(live.len() as u64) as usize;
+            let id = live.remove(i);
+            ops.push(format!("hdel {id}"));
+            if rng.chance(1, 2) {
+                // the same frontend comes back, possibly with another HSTS block
+                let block = match rng.below(3) {
+                    0 => "~".to_string(),
+                    1 => gen_hsts_cfg(rng, Some(false)),
+                    _ => gen_hsts_cfg(rng, Some(true)),
+                };
+                ops.push(format!("hadd {id} 0 0 _ {block}"));
+                live.push(id);
+            }
+        } else {
+            // adding an existing rule is refused
+            let id = *rng.pick(&live);
+            ops.push(format!("hadd {id} 0 0 _ ~"));
+        }
+    }
+    lookups(rng, &live, &mut ops);
+    ops
+}
+
 fn gen_case(prop: &str, rng: &mut Rng, _thorough: bool) -> Vec<String> {
     let r = rng.below(100);
     if prop == "C13" {
@@ -875,10 +955,12 @@ fn gen_case(prop: &str, rng: &mut Rng, _thorough: bool) -> Vec<String> {
             }
             let cuts = gen_cuts(rng, b.len());
             vec!["new".into(), op_h1(&b, &cuts)]
-        } else if r < 94 {
+        } else if r < 91 {
             gen_resp_case(rng)
-        } else {
+        } else if r < 95 {
             gen_respedits_case(rng)
+        } else {
+            gen_hsts_case(rng)
         }
     } else if r < 50 {
         // a third of the H2 cases go through the real editor too (what is forwarded includes its additions)
